@@ -378,3 +378,20 @@ V('d-dup-target', 'depccg/models/targets.ja.jsonnet', "{\n  targets: [\n", "{\n 
 V('d-dict-cat-not-in-targets', 'depccg/models/targets.en.jsonnet', "    'S[poss]/S[dcl]',\n", "", ['C17'])
 V('d-ambiguous-slashes', 'depccg/models/unary_rules.en.jsonnet', "unary_rules: [\n", "unary_rules: [\n    ['NP', 'S/S/NP'],\n", ['C17'])
 V('d-silent-blanks', 'depccg/models/targets.en_rebank.jsonnet', "    ',',\n", "    ' , ',\n", ['C17'], expect='silent')
+
+# ---------------------------------------------------------------- C11
+V('p-chunks-gap', PR, "        yield list_[i:i + splits]", "        yield list_[i:i + splits - 1]", ['C11'])
+V('p-chunks-step-mismatch', PR, "    for i in range(0, len(list_), splits):", "    for i in range(0, len(list_), splits + 1):", ['C11'])
+V('p-chunks-floor', PR, "splits = math.ceil(len(list_) / max(num_chunks, 1))", "splits = len(list_) // max(num_chunks, 1)", ['C11'])
+V('p-gather-reversed', PR, "                for task in tasks\n", "                for task in reversed(tasks)\n", ['C11'])
+V('p-gather-ready-first', PR, "                for task in tasks\n", "                for task in sorted(tasks, key=lambda t: not t.ready())\n", ['C11'])
+V('p-tasks-prepend', PR, "                tasks.append(task)", "                tasks.insert(0, task)", ['C11'])
+V('p-chunk-scores-shared', PR, "                    args=(list(doc_), list(score_results_)) + args,", "                    args=(list(doc_), score_results) + args,", ['C11'])
+V('p-no-typecheck-run', PR, "    doc, score_results = _type_check(doc, score_results, categories)\n\n    args = (", "    args = (", ['C11'])
+V('p-typecheck-warns-only', PR, "            raise RuntimeError(\n                (\"all inputs to depccg.parsing.run must contain scores for\"\n                 \" the equal number of categories as the `categories` list.\")\n            )", "            print(\"all inputs to depccg.parsing.run must contain scores for\"\n                  \" the equal number of categories as the `categories` list.\")", ['C11'])
+V('p-dep-shape-square', PR, "expected_dep_score = (num_tokens, num_tokens + 1)", "expected_dep_score = (num_tokens, num_tokens)", ['C11'])
+V('x-results-carry-over', PYX, "    all_results = []\n    iter_ = tqdm(", "    all_results = []\n    results = []\n    scores = []\n    iter_ = tqdm(", ['C11'], expect='silent')
+V('x-category-table-reset', PYX, "        if status > 0:\n            all_results.append(failed())\n            continue\n", "        if status > 0:\n            all_results.append(failed())\n            categories_.clear()\n            continue\n", ['C11', 'C02'])
+V('h-cache-overwrite', H, "    auto apply_unary_rules = [&](unsigned x)\n    {\n        std::pair<unsigned, unsigned> key(x, UINT_MAX);\n        if (cache->count(key) == 0)\n        {", "    auto apply_unary_rules = [&](unsigned x)\n    {\n        std::pair<unsigned, unsigned> key(x, UINT_MAX);\n        cache->erase(key);\n        if (cache->count(key) == 0)\n        {", ['C11'])
+V('h-cache-key-collides', H, "std::pair<unsigned, unsigned> key(x, y);", "std::pair<unsigned, unsigned> key(y, x);", ['C11', 'C02', 'C12'])
+V('x-shared-failed-list', PYX, "    def failed():\n        return [", "    _FAILED = []\n\n    def failed():\n        return _FAILED or [", ['C11'])
